@@ -106,6 +106,30 @@ def grep_forbidden(paths):
     return hits
 
 
+def lean_closure(modules):
+    """source files of the given modules and everything of this project they import (transitively)"""
+    seen, todo = {}, list(modules)
+    while todo:
+        m = todo.pop()
+        if m in seen:
+            continue
+        if m == 'Driver':
+            path = os.path.join(LEAN_DIR, 'Driver.lean')
+        else:
+            path = os.path.join(LEAN_DIR, *m.split('.')) + '.lean'
+        if not os.path.exists(path):
+            continue
+        seen[m] = path
+        try:
+            for line in open(path, encoding='utf-8'):
+                mm = re.match(r'\s*import\s+(Mwp(?:\.\w+)*)\s*$', line)
+                if mm:
+                    todo.append(mm.group(1))
+        except OSError:
+            pass
+    return sorted(seen.values())
+
+
 def lean_sources():
     out = []
     for root, _, files in os.walk(os.path.join(LEAN_DIR, 'Mwp')):
